@@ -653,6 +653,7 @@ impl OrdSpecImpl for Version { open spec fn obeys_cmp_spec() -> bool { true } op
     g.emit('m_winnow', P('winnow_shim.rs'))
     g.emit('m_vspec', P('vgrammar_spec.rs'))
     g.emit('m_rspec', P('rgrammar_spec.rs'))
+    g.emit('m_rspec', K.STD_FLATTEN)
     g.emit('m_vtwins', K.grammar_twins())
     g.emit('m_vtwins', K.PARSE_SPEC)
     g.emit('m_vtwins', K.PARSE_POST)
